@@ -7,7 +7,6 @@ from sa.selftest import all_pids
 NA = {
  "C12": "not claimed: the normalising-default clauses (R13b of DESIGN 3) and the shape contract of the mixing-weight parameter were not built; Z == 1 itself is numerical. See DESIGN.md section 10.",
  "C13": "gradient values are the numerical semantics of autograd; the only structural clause (no gradient-severing construct) is not a sound necessary condition (detaching the log-sum-exp shift is behaviour-preserving). See DESIGN.md section 4, C13.",
- "C15": "the distribution of samples is statistical; the tensor-shape contracts of the sample chain need the shape interpreter (DESIGN 3.R4) which was not built. Defect D12 and the missing TorchTuckerLayer.sample are documented in DESIGN.md section 5 but not decided by any check.",
  "C19": "torch state_dict / load_state_dict semantics are run-time behaviour of torch; the registration-discipline rule (R10) was not built and would be close to vacuous. See DESIGN.md section 4, C19.",
 }
 checks = []
@@ -22,11 +21,11 @@ for pid in all_pids():
         "engine": "sa",
         "level_claimed": {
             "category": "other",
-            "text": "Static decision (AST / CFG / def-use over /repo's working tree, nothing executed) of named structural clauses that are necessary conditions of the property, exhaustive over the repository's own tables (registries, class hierarchy, rule functions, call sites): " + spec.decides + " It decides those clauses, not the behaviour: " + spec.not_decided,
+            "text": "Static decision (AST / CFG / def-use / symbolic shape interpretation over /repo's working tree, nothing executed) of named structural clauses that are necessary conditions of the property, exhaustive over the repository's own tables (registries, class hierarchy, rule functions, call sites): " + spec.decides + " It decides those clauses, not the behaviour: " + spec.not_decided,
             "design_ref": f"DESIGN.md section 4 ({pid}), section 3 (rules), section 10 (as built)",
         },
         "level_note": "Trusted base: CPython's ast module; the Python semantics of the modelled constructs; sa/model.py name / class resolution; the rule tables in sa/rules. Unresolved constructs give no verdict (listed in the evidence); instance-count floors turn a vacuous pass into exit 2.",
-        "technique": "static analysis: custom AST/CFG/def-use rules specific to cirkit",
+        "technique": "static analysis: custom AST/CFG/def-use rules and a symbolic tensor-shape abstract interpreter, all specific to cirkit (nothing executed)",
     })
 claimed = {c["property_id"] for c in checks}
 man = {
